@@ -200,7 +200,11 @@ fn eval_merge(al: &PsetL, bl: &PsetL) -> Out {
     if same_transaction(&al, &bl) && compatible(&al, &bl) && (ua.is_ok() || ub.is_ok()) && !matches!(r, Res::Ok(_)) {
         fails.push(("same-transaction-refused".into(), format!("the operands agree on every transaction-identifying field and differ only by compatible additions, but merge returns {}", show_res(&r))));
     }
-    if let (Res::Ok(c), Some(m)) = (&r, &merged) {
+    // "nothing is lost" is the property's clause for two PSETs that DESCRIBE THE SAME TRANSACTION (equal unique ids, or — where neither has one — the same
+    // values in every transaction-identifying field). Operands without a unique id and of different shapes are merged map by map over the shorter side by
+    // the code (two equal Err values pass the gate); the property says nothing about what such a merge keeps, only C10's clause applies: it must not panic.
+    let describes_same = same_transaction(&al, &bl) || matches!((&ua, &ub), (Ok(x), Ok(y)) if x == y);
+    if let (Res::Ok(c), Some(m), true) = (&r, &merged, describes_same) {
         let mut dropped = vec![];
         let newly_ab = |pos: usize| !has_wu(&al, pos) && has_wu(&bl, pos);
         drops(&al, c, &newly_ab, &mut fails, &mut dropped);
@@ -409,6 +413,16 @@ pub fn gen(rng: &mut ChaCha20Rng, n: usize, thorough: bool) -> Vec<Case> {
         let (nw, w) = (sample(rng, &pool, "I", "non_witness_utxo"), sample(rng, &pool, "I", "witness_utxo"));
         match place { "other" => { put(&mut a.ins[0], nw); put(&mut b.ins[0], w); } "self" => { put(&mut a.ins[0], w); put(&mut b.ins[0], nw); } _ => { put(&mut a.ins[0], nw.clone()); put(&mut a.ins[0], w.clone()); put(&mut b.ins[0], nw); put(&mut b.ins[0], w); } }
         out.push(mk_merge(&norm(&a), &norm(&b), vec!["field:I.utxo-pair".into(), format!("place:{}", place)]));
+    }
+    // (1c) operands WITHOUT a unique id — an output that has neither amount nor asset (nor commitments): extract_tx fails with the same error on both
+    // sides, `self.unique_id() != other.unique_id()` compares two equal Err values and the merge goes on, map by map over the SHORTER side — with operands
+    // of different map counts in both directions (seeded C10-r6-4: positional loops indexed by the other operand's length)
+    for (ni_a, no_a, ni_b, no_b) in [(1usize, 1usize, 1usize, 1usize), (1, 1, 2, 1), (1, 1, 1, 2), (2, 2, 1, 1), (1, 2, 2, 3), (2, 1, 3, 1)] {
+        let strip = |m: &mut crate::psetl::PsetL| { m.outs[0].retain(|e| !["amount", "asset", "amount_comm", "asset_comm"].contains(&e.name.as_str())); };
+        let (mut a, mut b) = (to_model(&base_pset(rng, ni_a, no_a)), to_model(&base_pset(rng, ni_b, no_b)));
+        strip(&mut a); strip(&mut b);
+        put(&mut b.ins[0], sample(rng, &pool, "I", "sighash_type"));
+        out.push(mk_merge(&norm(&a), &norm(&b), vec!["no-unique-id:both".into(), format!("maps:{}x{}+{}x{}", ni_a, no_a, ni_b, no_b)]));
     }
     // (2) xpub key-source pair classes (as a direct reconciliation case and inside a full merge)
     let paths = |rng: &mut ChaCha20Rng, class: &str| -> (Vec<u8>, Vec<u8>) {
